@@ -102,6 +102,9 @@ META["rule"] += (
 META["rule"] += (
     " " + "Added after the fifth round: a quarter of the rescaling relations and a third of the unit changes use factors 2^-40 .. 2^30; taumax = 0 (float and int) through EventSeriesClimateNetwork (120 / 1200 such networks); a Monte-Carlo significance query precedes the analysis matrices on a fifth (ES) / a third (ECA) of the small objects, the caller's event matrix must stay what it was.")
 
+META["rule"] += (
+    " " + 'Added after the sixth round: 12 % of the random cases put the events of one series early and of the others late, with a lag of that size.')
+
 _SAMPLED = {"ES": 0, "ECA": 0}
 
 ES_SETTINGS = [(INF, 0.0), (1.0, 0.0), (2.0, 1.0)]
@@ -1036,6 +1039,20 @@ def random_case(ctx, ES, k):
         lag = -lag if (lag and r.random() < 0.5) else (
             -taumax if taumax not in (INF, 0.0) else -1.0)
         ctx.count("negative_lag_cases")
+    if T >= 12 and r.random() < 0.12:
+        # series whose events lie in separate stretches of the record (one
+        # early, the others late) and a lag that brings them together
+        third = T // 3
+        M[third:, 0] = 0
+        M[:T - third, 1:] = 0
+        if not M[:, 0].any():
+            M[int(r.integers(0, third)), 0] = 1
+        for c_ in range(1, N):
+            if not M[:, c_].any():
+                M[int(r.integers(T - third, T)), c_] = 1
+        lag = float(r.choice([-1, 1])) * float(T - third)
+        ts = None if r.random() < 0.5 else ts
+        ctx.count("events_in_separate_stretches")
     dt = str(r.choice(["int", "float", "int8", "bool"]))
     M = M.astype({"int": int, "float": float, "int8": np.int8,
                   "bool": bool}[dt])
